@@ -131,5 +131,14 @@ PROPS = {
         "explanation": "Lean theorems: generator labels have no capacity argument and the iterator for m parties is a prefix of that for any larger capacity; zero padding up to the table size is neutral and always fills the table; the coded verifier depends on G, H only through their first n*m entries. Tie: residual under c_v != c_p is a non-zero multiple of the reference residual; oracle: all capacity pairs accepted on both groups, mixed batches accepted.",
         "assumptions": COMMON_ASSUME,
     },
+    "C05": {
+        "level": "proof",
+        "theorems": T("C05_A1_unique", "C05_B_unique", "C05_A_unique", "C05_s1_unique", "C05_d1k_unique", "C02_response_r1_unique", "C04_data_final", "C07_bind_single"),
+        "leancheck": ["Bpp.BindingThm"],
+        "scenarios": [{"name": "C05"}],
+        "rule": "accepted triples x every component position x replacement kinds (scalars: +1, random, zero, negated; points: bit flip, other point, identity, undecodable, swapped-in; rounds +-1; tag; commitments: replaced / encoding-only / point-only / reordered; promises; generators both/encoding/point; bit length; context), alone and inside a batch; both groups; distinct = (bits, aggregation, degree, component kind)",
+        "explanation": "Lean theorems: every component is under a later challenge (C04) or has a unique accepting value at fixed challenges (r1, s1, d1_k, A, A1, B, promises) or is shape-checked. Oracle (the property itself, exhaustive over positions): every single alteration of an accepted triple returns an error value, never Ok, never a panic, on the free module and on Ristretto, alone and as a batch member.",
+        "assumptions": COMMON_ASSUME + ["that a changed challenge makes the equation fail is the random-oracle step"],
+    },
 }
 NOT_CLAIMED = {}
